@@ -41,6 +41,64 @@ LAWS = {
 }
 
 
+def _region(conds):
+    """conditions on c (comparisons with numeric literals) -> (lo, lo_closed, hi, hi_closed) or None if anything else is tested"""
+    lo, lc, hi, hc = float("-inf"), False, float("inf"), False
+    for a in conds:
+        if not (isinstance(a, tuple) and a[0] == "cmp" and a[1] in ("<", "<=")):
+            return None
+        l, r = a[2], a[3]
+        try:
+            if l == "c":
+                k = float(r)
+                if k < hi or (k == hi and a[1] == "<"):
+                    hi, hc = k, a[1] == "<="
+            elif r == "c":
+                k = float(l)
+                if k > lo or (k == lo and a[1] == "<"):
+                    lo, lc = k, a[1] == "<="
+            else:
+                return None
+        except ValueError:
+            return None
+    return lo, lc, hi, hc
+
+
+def _same_piecewise(cs, spec) -> bool:
+    code = [(_region(c), e) for c, e in cs]
+    ref = [(_region(frozenset(c)), ratform.parse(t)) for c, t in spec]
+    if any(r is None or e is None for r, e in code) or any(r is None for r, _ in ref):
+        return False
+    # the pieces of the code must tile the line (they come from if/else splits; checked all the same: no gap, no overlap)
+    pts = sorted({x for r, _ in code + ref for x in (r[0], r[2]) if x not in (float("-inf"), float("inf"))})
+    probes = set(pts)
+    edges = [float("-inf")] + pts + [float("inf")]
+    for a, b in zip(edges, edges[1:]):
+        probes.add((a + b) / 2 if a != float("-inf") and b != float("inf") else (b - 1 if a == float("-inf") and b != float("inf") else (a + 1 if b == float("inf") and a != float("-inf") else 0.0)))
+
+    def inside(r, x):
+        lo, lc, hi, hc = r
+        return (lo < x or (lc and lo == x)) and (x < hi or (hc and hi == x))
+    for x in probes:
+        if sum(1 for r, _ in code if inside(r, x)) != 1 or sum(1 for r, _ in ref if inside(r, x)) != 1:
+            return False
+    for rc, ec in code:
+        for rr, er in ref:
+            lo = max(rc[0], rr[0])
+            hi = min(rc[2], rr[2])
+            lo_c = all(inside(r, lo) for r in (rc, rr)) if lo != float("-inf") else False
+            hi_c = all(inside(r, hi) for r in (rc, rr)) if hi != float("inf") else False
+            if lo > hi or (lo == hi and not (lo_c and hi_c)):
+                continue            # the two regions do not meet
+            if lo == hi:
+                k = ast.Constant(value=int(lo) if float(lo).is_integer() else lo)
+                if not ratform.same(norm.subst(ec, {"c": k}), norm.subst(er, {"c": k})):
+                    return False
+            elif not ratform.same(ec, er):
+                return False
+    return True
+
+
 def check_scaling(ctx, num=3):
     P = ctx.P
     seg = P.cls(PL, "Segment")
@@ -88,6 +146,11 @@ def check_scaling(ctx, num=3):
                     m = [s for s in spec if frozenset(s[0]) == conds]
                     if len(m) != 1 or expr is None or not ratform.same(expr, ratform.parse(m[0][1])):
                         ok = False
+                if not ok:
+                    # the same function cut differently: the pieces of the code are compared with the pieces of the reference on the
+                    # intersections of their regions (intervals of c); where two regions meet in a single point the two expressions are
+                    # compared at that point (`c <= 3` instead of `c < 3` is the same law: b/c and b/3 agree at 3)
+                    ok = _same_piecewise(cs, spec)
                 d = "; ".join(f"[{' and '.join(norm.show(a) for a in sorted(c, key=repr)) or 'always'}] -> {norm.U(e) if e is not None else None}" for c, e in cs)
             except piecewise.Unsupported as e:
                 ok, d = False, f"body not a simple case split: {e}"
